@@ -1,5 +1,5 @@
 (* C02 - CTAP2 response encoding carries every member under its specified key, exactly. *)
-From Ctap Require Import Base Schema Wire Typed Procs Inst Tables ProcTables Finite FramingP.
+From Ctap Require Import Base Schema Wire Typed Procs Inst Tables ProcTables Finite Canonical WireP SerP FramingP.
 Local Open Scope string_scope.
 Local Open Scope Z_scope.
 
@@ -56,6 +56,34 @@ Proof.
   split; apply (opt_eqb_eq bytes_eqb (fun a b H => proj1 (bytes_eqb_eq a b) H)); assumption.
 Qed.
 
+(* For ANY environment and ANY record value: a struct is emitted as exactly ONE map; its entries are,
+   in declaration order, the members that are emitted (emit_list); the count in the map head is their
+   number *)
+Theorem c02_struct_is_one_map : forall e k name i s d fs vs,
+  lookup e name = Some (DStruct i s d fs) ->
+  ser e (S k) (TNamed name) (VRec vs) =
+    match emit_list (ser e k) vs fs with
+    | Some l => Some (put_head 5 (blen l) ++ List.concat (map (fun p => ser_key (fst p) ++ snd p) l))%list
+    | None => None
+    end.
+Proof. exact ser_struct_shape. Qed.
+
+(* each entry is a declared member, under ITS key, carrying exactly the encoding of ITS value; the
+   member is one that is set (emitted fd fv: never an unset skip-if-none member, so never null for an
+   absent optional member) *)
+Theorem c02_entries_are_set_members : forall serf vs fs l, emit_list serf vs fs = Some l ->
+  Forall (fun p => exists fd fv, In fd fs /\ f_key fd = fst p /\ rget (f_label fd) vs = Some fv /\
+                                 emitted fd fv = true /\ serf (f_ty fd) fv = Some (snd p)) l.
+Proof. exact emit_list_bodies. Qed.
+
+Theorem c02_unset_optional_not_emitted : forall fd, f_skip_none fd = true -> emitted fd VNone = false.
+Proof. intros fd H. unfold emitted. rewrite H. cbn. apply andb_false_r. Qed.
+
+(* each member at most once, in declaration order: the emitted keys are a sublist of the declared keys *)
+Theorem c02_each_member_once : forall serf vs fs l, emit_list serf vs fs = Some l ->
+  sublist (map fst l) (emitted_keys fs).
+Proof. exact emit_list_keys. Qed.
+
 (* tie to the source: the member tables (keys, order, types, which members are skipped when unset) and
    the variant -> serialised-member table *)
 Theorem c02_generated_conforms :
@@ -68,5 +96,9 @@ Eval vm_compute in "ASSUMPTIONS c02_message". Print Assumptions c02_message.
 Eval vm_compute in "ASSUMPTIONS c02_parameterless". Print Assumptions c02_parameterless.
 Eval vm_compute in "ASSUMPTIONS c02_next_assertion_same". Print Assumptions c02_next_assertion_same.
 Eval vm_compute in "ASSUMPTIONS c02_no_member_set". Print Assumptions c02_no_member_set.
+Eval vm_compute in "ASSUMPTIONS c02_struct_is_one_map". Print Assumptions c02_struct_is_one_map.
+Eval vm_compute in "ASSUMPTIONS c02_entries_are_set_members". Print Assumptions c02_entries_are_set_members.
+Eval vm_compute in "ASSUMPTIONS c02_unset_optional_not_emitted". Print Assumptions c02_unset_optional_not_emitted.
+Eval vm_compute in "ASSUMPTIONS c02_each_member_once". Print Assumptions c02_each_member_once.
 Eval vm_compute in "ASSUMPTIONS c02_generated_conforms". Print Assumptions c02_generated_conforms.
 Eval vm_compute in "ASSUMPTIONS c02_generated_tables". Print Assumptions c02_generated_tables.
